@@ -122,6 +122,11 @@ func (v *c11V) key() string {
 		s = "funclit@" + strconv.Itoa(int(v.node.Pos()))
 	case "func":
 		s = "func " + v.fn.FullName()
+		if len(v.xs) == 1 {
+			s += " of " + v.xs[0].key()
+		}
+	case "ref":
+		s = "&" + v.obj.Name() + "@" + v.name
 	case "list":
 		s = "list[" + ks(v.xs) + "]"
 	case "lit":
